@@ -155,6 +155,8 @@ def obody(b):
         return "(OApplicable %s)" % amap(b["l"])
     if k == "sub":
         return "(OSubcatchment %s)" % g.lst(["(%s, %s)" % (s(n), g.b(v)) for n, v in b["l"]])
+    if k == "status":
+        return "(OStatus %s %s %s)" % (s(b["name"]), s(b["version"]), s(b["status"]))
     if k == "solution":
         return "(OSolution %s %s %s %s %s %s %s)" % (s(b["id"]), amap(b["active"]), g.b(b["vars_ok"]), opts(b["enc"]),
                                                    opts(b["summary"]), optb(b["pfm"]), optb(b["valid"]))
@@ -183,6 +185,23 @@ def case(c):
     return "(mkcase %s)" % g.lst([step(x) for x in c["steps"]])
 
 
+AROUTE = {"status": "AStatus", "shutdown": "AShutdown", "none": "ANone"}
+
+
+def sstep(st):
+    if st["t"] == "api":
+        q = "(ToApi %s)" % request(st["req"])
+    elif st["t"] == "root":
+        q = "(ToApiRoot %s)" % METH[st["m"]]
+    else:
+        q = "(ToAdmin %s %s)" % (METH[st["m"]], AROUTE[st["route"]])
+    return "(Build_sstep %s %s %s)" % (q, oresp(st["resp"]), g.b(st["signalled"]))
+
+
+def scase(c):
+    return "(Build_scase %s %s %s %s)" % (s(c["svc"][0]), s(c["svc"][1]), s(c["svc"][2]), g.lst([sstep(x) for x in c["steps"]]))
+
+
 def desc(d):
     acts = g.lst(["(%s, %s)" % (z(pu), s(ty)) for pu, ty in d["actions"]])
     pus = g.lst([z(p) for p in d["pus"]])
@@ -191,7 +210,7 @@ def desc(d):
     return "Definition d%d : desc CV := mkdesc %s %s %s %s.\n" % (d["id"], acts, pus, asis, inv)
 
 
-PRELUDE = g.HEADER + """From Crem Require Import Base.Res Base.Fl Engine EngineCorr.
+PRELUDE = g.HEADER + """From Crem Require Import Base.Res Base.Fl Engine EngineAdmin EngineCorr.
 Open Scope string_scope.
 Definition rq := @Build_request CV.
 Definition mkobs := Build_obs.
@@ -222,6 +241,11 @@ def generate(pid, ctx, lines):
         body += "Definition M := Eval vm_compute in mismatches cases.\nPrint M.\n"
         body += "Definition D := Eval vm_compute in diag cases.\nPrint D.\n"
         jobs.append(("cases_%s_%d" % (pid, si), body, shard))
+    scases = [l for l in lines if l.get("kind") == "scase"]
+    if scases:
+        sbody = head + "Definition scases : list scase := [\n  " + ";\n  ".join(scase(c) for c in scases) + "\n].\n"
+        sbody += "Definition M := Eval vm_compute in smismatches scases.\nPrint M.\n"
+        jobs.append(("cases_%s_server" % pid, sbody, None))
     conv_items = ["(%s, %s)" % (fval(c["f"]), z(c["id"])) for c in convs]
     jobs.append(("cases_%s_conv" % pid, head + "Definition M := Eval vm_compute in conv_mismatches %s.\nPrint M.\n" % g.lst(conv_items), None))
 
@@ -252,6 +276,10 @@ def generate(pid, ctx, lines):
         ctx.oblige(label, not idx, "" if not idx else "mismatching case indices: %s" % idx[:20])
         if idx:
             n = len(shard) if shard is not None else len(convs)
+            if name.endswith("_server"):
+                n = len(scases)
+                ctx.notes.append({"server_sequence_mismatch": [{"sequence": scases[i]["name"], "steps": [(x.get("go"), x["resp"]) for x in scases[i]["steps"]][:12]}
+                                                               for i in idx[:3] if i < len(scases)]})
             ctx.broken.append("%s (model and implementation differ on %d of %d cases, first index %d)" % (label, len(idx), n, idx[0]))
             dm = re.search(r"D\s*=\s*(\[.*?\])\s*:\s*list", so, flags=re.S)
             pairs = re.findall(r"\((\d+),\s*(\d+)\)", dm.group(1)) if dm else []
